@@ -420,13 +420,16 @@ func (x *Exec) loopPreserved(fr *frame, li *loopInfo, n *State, pre map[Sort]Ter
 				continue
 			}
 			callee := c.StaticCallee()
+			ok := map[*FieldDecl]bool{}
 			if callee == nil {
 				x.C.Trusted["dynamic calls (callbacks, interface methods of other packages) do not re-enter the package to write fields under a write-set declaration"] = true
-				continue
-			}
-			ok := map[*FieldDecl]bool{}
-			for _, fd := range x.E.preservedBy(callee) {
-				ok[fd] = true
+				for _, fd := range x.E.preservedByDyn(c) {
+					ok[fd] = true
+				}
+			} else {
+				for _, fd := range x.E.preservedBy(callee) {
+					ok[fd] = true
+				}
 			}
 			for fd := range keep {
 				if !ok[fd] {
